@@ -125,7 +125,7 @@ SPECS["actor.rs::run_actor_lifecycle"] = dict(
             ],
             invariant=[
                 C("lifecycle.select.inv.not_killed", "C04 C06", "!killed"),
-                C("lifecycle.select.inv.guard_is_flag", "C08", "__sel1_g0 && __sel1_g1 && __sel1_g2 == idle_enabled"),
+                C("lifecycle.select.inv.guard_is_flag", "C08 C06 C04 C01", "__sel1_g0 && __sel1_g1 && __sel1_g2 == idle_enabled"),
             ] + LC_INV_CH,
             ensures=[
                 C("lifecycle.select.fired_branch_matches_monitor", "C04 C06 C08 C01", "sel_post3(actor, __sel1_out)"),
@@ -222,7 +222,8 @@ def _ask(features):
     if "deadlock-detection" in features:
         d["raii"] = {"graph": "drop", "_guard": "vx_drop_opt_guard"}
         d["proofs"] = [("drop(graph, w);",
-                        "proof { assert(caller.id == callee.id || chain_unanswered(graph@, callee.id, caller.id)); /*L:ask.deadlock_panic.requires_unanswered_chain*/ }",
+                        "proof { assert(caller.id == callee.id || chain_unanswered(graph@, callee.id, caller.id)); /*L:ask.deadlock_panic.requires_unanswered_chain*/ }\n"
+                        "proof { assert(graph@ == w.graph()); /*L:ask.deadlock_panic.leaves_graph_as_found*/ }",
                         "before")]
     return d
 
@@ -529,6 +530,7 @@ PROPERTY_FEATURES = {
 EXTRA_LABELS = {
     "handle_message.pre.scope@dyn": "C14",
     "ask.deadlock_panic.requires_unanswered_chain": "C15",
+    "ask.deadlock_panic.leaves_graph_as_found": "C12 C15",
     "mutex.no_reentrant_lock": "C12 C14",
     "hook.on_start.inside_actor_scope": "C14",
     "hook.inside_actor_scope": "C14",
